@@ -248,7 +248,7 @@ class _P:
         if t.kind == "OP" and t.lex == "{":
             self.i += 1
             self.in_call += 1
-            nd = self.expr(1)
+            nd = self.argument()  # {e} is I(e), so {k = v} is I(k=v) like any other argument
             self.expect("}")
             self.in_call -= 1
             return self.node(("call", ("var", "I", None), [nd]), start)
